@@ -142,6 +142,13 @@ inductive Stored (kvs : List (Bytes × Obj)) (view decoded : Bytes) : Prop
       (hp : dictGet ObjStm.kDecodeParms kvs = none)
       (hv : view = FiltersSpec.zlibStored parts ++ trailing)
       (hparts : ∀ p ∈ parts, p.length ≤ 65535) (hd : parts.flatten = decoded)
+  /-- /Filter /FlateDecode, no /DecodeParms, the content being ANY zlib stream the modelled inflate decodes to the data:
+      in particular every stream of the specification's encoders - stored, fixed-Huffman and dynamic-Huffman blocks in
+      any mixture (`Stored.of_layerEnc`, C06's round-trip theorems).  A compressed stream may be shorter than its data,
+      hence the size bound on the data itself. -/
+  | flateAny (hf : dictGet ObjStm.kFilter kvs = some (.name ObjStm.nFlate))
+      (hp : dictGet ObjStm.kDecodeParms kvs = none)
+      (hz : Inflate.inflate view = .ok decoded) (hlen : decoded.length ≤ 2 ^ 63)
 
 theorem flatten_le_stored : ∀ parts : List Bytes, parts.flatten.length ≤ (FiltersSpec.storedBlocks parts).length
   | [] => by simp
@@ -154,13 +161,13 @@ theorem flatten_le_stored : ∀ parts : List Bytes, parts.flatten.length ≤ (Fi
 theorem decodesTo_of_stored (kvs : List (Bytes × Obj)) (view decoded : Bytes) (vbase : Nat)
     (h : Stored kvs view decoded) :
     ∃ dbase, C14.DecodesTo objDec kvs view 0 vbase decoded dbase ∧ (dbase = vbase ∨ dbase = 0) ∧
-      decoded.length ≤ view.length := by
+      (decoded.length ≤ view.length ∨ (dbase = 0 ∧ decoded.length ≤ 2 ^ 63)) := by
   cases h with
   | plain hf hv =>
-    refine ⟨vbase, ⟨[], ?_, .inl ⟨rfl, hv.symm, rfl⟩⟩, .inl rfl, by rw [hv]; exact Nat.le_refl _⟩
+    refine ⟨vbase, ⟨[], ?_, .inl ⟨rfl, hv.symm, rfl⟩⟩, .inl rfl, .inl (by rw [hv]; exact Nat.le_refl _)⟩
     simp [ObjStm.filters, ObjStm.getName, ObjStm.getArray, hf]
   | flate parts trailing hf hp hv hparts hd =>
-    refine ⟨0, ⟨[⟨ObjStm.nFlate, none⟩], ?_, .inr ⟨by simp, ?_, rfl⟩⟩, .inr rfl, ?_⟩
+    refine ⟨0, ⟨[⟨ObjStm.nFlate, none⟩], ?_, .inr ⟨by simp, ?_, rfl⟩⟩, .inr rfl, .inl ?_⟩
     · simp [ObjStm.filters, ObjStm.getName, ObjStm.getDict, ObjStm.getArray, hf, hp]
     · have henc : C06.LayerEnc Filters.nFlate decoded view := by
         rw [hv, ← hd]; exact C06.LayerEnc.flateStored hparts
@@ -172,6 +179,13 @@ theorem decodesTo_of_stored (kvs : List (Bytes × Obj)) (view decoded : Bytes) (
       rw [hv, ← hd]
       simp only [FiltersSpec.zlibStored, List.length_append]
       omega
+  | flateAny hf hp hz hlen =>
+    refine ⟨0, ⟨[⟨ObjStm.nFlate, none⟩], ?_, .inr ⟨by simp, ?_, rfl⟩⟩, .inr rfl, .inr ⟨rfl, hlen⟩⟩
+    · simp [ObjStm.filters, ObjStm.getName, ObjStm.getDict, ObjStm.getArray, hf, hp]
+    · have hrt : objDec ⟨ObjStm.nFlate, none⟩ view = .ok decoded :=
+        C06.layer_roundtrip ext ⟨Filters.nFlate, none⟩ decoded view (C06.LayerEnc.flateAny hz) rfl
+      have hk : ObjStm.knownFilter ObjStm.nFlate = true := by decide
+      simp only [List.drop_zero, ObjStm.decodeLoop, hk, Bool.not_true, Bool.false_eq_true, if_false, hrt]
 
 /-! ## `parseViews` keeps the flag and the map invariant -/
 
@@ -272,7 +286,9 @@ theorem loads (hofs : Nat) (s : Bytes) (w : WCont) (hsize : hofs + s.length ≤ 
   have hflen : (encodeHeader w.es ++ w.tail).length ≤ w.decoded.length := by
     simp only [decoded, List.length_append]; omega
   have hbase : dbase + (encodeHeader w.es ++ w.tail).length ≤ 2 ^ 63 := by
-    rcases hdb with rfl | rfl <;> omega
+    rcases hdlen with hdlen | ⟨rfl, hdlen⟩
+    · rcases hdb with rfl | rfl <;> omega
+    · omega
   -- the header
   have hlen : w.es.length = w.mems.length := by
     have := congrArg List.length hok.data.decl
